@@ -145,7 +145,9 @@ def numpy_loop(ctx, fi, bounded_expected: bool):
     incs = [st for st in loop.body if isinstance(st, ast.AugAssign) and isinstance(st.op, ast.Add)
             and isinstance(st.target, ast.Name) and isinstance(st.value, ast.Constant) and st.value.value == 1]
     if len(incs) != 1:
-        raise AnalysisError(f"{q}: loop counter not recognised")
+        ctx.rep.note(f"{q}: loop counter not recognised in this shape of the code (state kept in a helper object, another counting "
+                     f"idiom, ...); the counter / capacity interval argument (CAP-1) is not applied")
+        return
     v = incs[0].target.id
     inc_pos = loop.body.index(incs[0])
     # conditional increments anywhere else in the body break the interval argument
@@ -158,7 +160,9 @@ def numpy_loop(ctx, fi, bounded_expected: bool):
                 and isinstance(st.value, ast.Constant):
             init = st.value.value
     if init != 0 or other_inc:
-        raise AnalysisError(f"{q}: counter initialisation / update not of the modelled form")
+        ctx.rep.note(f"{q}: counter initialisation / update not of the modelled form in this shape of the code (state kept in a helper object, another counting "
+                     f"idiom, ...); the counter / capacity interval argument (CAP-1) is not applied")
+        return
     # guard
     conj = loop.test.values if isinstance(loop.test, ast.BoolOp) and isinstance(loop.test.op, ast.And) else [loop.test]
     bound_name, c1 = None, None
@@ -179,7 +183,9 @@ def numpy_loop(ctx, fi, bounded_expected: bool):
             if k is not None:
                 writes.append((st.targets[0].value.id, k, loop.body.index(st), st))
     if len(writes) != 1:
-        raise AnalysisError(f"{q}: buffer write not recognised")
+        ctx.rep.note(f"{q}: buffer write not recognised in this shape of the code (state kept in a helper object, another counting "
+                     f"idiom, ...); the counter / capacity interval argument (CAP-1) is not applied")
+        return
     buf, c2, wpos, wst = writes[0]
     rows = None
     defs: Dict[str, ast.AST] = {}
